@@ -271,7 +271,7 @@ def _hilbert3d(x, y, z, bit_length):
     return order
 
 
-def _get_cpu_list(bounding_box, lmax, levelmax, infofile, ncpu, ndim):
+def _get_cpu_list(bounding_box, lmax, levelmax, infofile, ncpu, ndim, levelmin=1):
     bound_key = _read_bound_key(infofile=infofile, ncpu=ncpu)
 
     xmin = bounding_box["xmin"]
@@ -286,7 +286,10 @@ def _get_cpu_list(bounding_box, lmax, levelmax, infofile, ncpu, ndim):
         if dx < dmax:
             break
 
-    lmin = ilevel
+    # A cell is stored with its oct, and the oct belongs to the CPU that holds the
+    # Hilbert key of the oct centre: the search cubes must not be smaller than the
+    # coarsest octs, or the centre of the oct of a large leaf cell can lie outside them.
+    lmin = min(ilevel, levelmin)
     bit_length = lmin - 1
     maxdom = 2**bit_length
     imin = 0
@@ -380,4 +383,5 @@ def hilbert_cpu_list(meta, scaling, select, infofile):
             infofile=infofile,
             ncpu=meta["ncpu"],
             ndim=meta["ndim"],
+            levelmin=meta["levelmin"],
         )
